@@ -6,8 +6,10 @@ CONSTANTS
   MaxCrash = 0
   Concurrent = TRUE
   Uploads = FALSE
-  CheckAFixed = FALSE
+  CheckAFixed = TRUE
+  SaveRmForeign = FALSE
   SameHeight = TRUE
 VIEW view
 CHECK_DEADLOCK FALSE
-INVARIANTS FirstSurvives
+INVARIANTS TypeOK ReadMatchesMap FirstSurvives SaveComplete PresentedComplete
+PROPERTIES FirstFilesSurvive
